@@ -327,9 +327,24 @@ struct Mixed {
             if (k == "hlink") {
                 if (hlen.count(key))
                     return false;
-                int32 aid = HLcreate(fid, tag, ref, (int32)std::max<int64_t>(1, o.arg(5)), (int32)std::max<int64_t>(1, o.arg(6)));
-                if (MX("HLcreate", aid == FAIL))
-                    return true;
+                int32 aid;
+                if (o.arg(6) == 4) {
+                    // the other way to linked blocks: an element that has a descriptor and no data yet is promoted before its
+                    // first byte is written
+                    aid = Hstartaccess(fid, tag, ref, DFACC_RDWR);
+                    if (MX("Hstartaccess", aid == FAIL))
+                        return true;
+                    if (MX("HLconvert", HLconvert(aid, (int32)std::max<int64_t>(1, o.arg(5)), 2) == FAIL)) {
+                        Hendaccess(aid);
+                        return true;
+                    }
+                    ctx.probe("promoted-before-first-byte");
+                }
+                else {
+                    aid = HLcreate(fid, tag, ref, (int32)std::max<int64_t>(1, o.arg(5)), (int32)std::max<int64_t>(1, o.arg(6)));
+                    if (MX("HLcreate", aid == FAIL))
+                        return true;
+                }
                 int64_t              len = std::max<int64_t>(1, o.arg(3));
                 std::vector<uint8_t> d   = data_block((uint64_t)o.arg(4), (size_t)len);
                 MX("Hwrite", Hwrite(aid, (int32)len, d.data()) != (int32)len);
@@ -952,7 +967,7 @@ struct MixedGen {
                 if (k == 0)
                     return mkop(0, "hput", {0, (int64_t)r.below(3), (int64_t)r.below(8), 1 + r.sizeish(maxlen), ds});
                 if (k == 1)
-                    return mkop(0, "hlink", {1, (int64_t)r.below(3), (int64_t)r.below(8), 1 + r.sizeish(maxlen), ds, r.range(1, 40), r.range(1, 3)});
+                    return mkop(0, "hlink", {1, (int64_t)r.below(3), (int64_t)r.below(8), 1 + r.sizeish(maxlen), ds, r.range(1, 40), r.range(1, 4)});
                 if (k == 2)
                     return mkop(0, "happend", {lk, (int64_t)r.below(3), (int64_t)r.below(8), 1 + r.sizeish(maxlen), ds});
                 return mkop(0, "hput", {0, (int64_t)r.below(3), (int64_t)r.below(8), 1 + r.sizeish(maxlen), ds});
